@@ -62,17 +62,14 @@ def run(prog: Program, res: Result) -> None:
                  "R2 ORD: first target receives FIRST(1) of ASC (default direction)", "R3 SGN parity", "R4 packaging agrees"]
     res.undecided = ["NaN costs"]
     closed_world(prog, res)
-    opt = prog.func(f"{ABSTRACT}.optimize")
-    loops = [st for st in opt.node.body if isinstance(st, ast.While)]
-    if len(loops) != 1:
-        res.errors.append(f"optimize() has {len(loops)} top-level while loops, 1 confirmed")
-        return
-    loop = loops[0]
-    body = loop.body
-    i_step = [i for i, st in enumerate(body) if isinstance(st, ast.Expr) and isinstance(st.value, ast.Call)
-              and dotted(st.value.func) == "self.optimization_step"]
-    i_snap = [i for i, st in enumerate(body) if _is_snapshot(st)]
-    i_best = [i for i, st in enumerate(body) if _best_assign(st) is not None]
+    from ..optmodel import extract
+    m = extract(prog)
+    opt = m.fn
+    loop = m.loop
+    body = [e.stmt for e in m.events]
+    i_step = [i for i, e in enumerate(m.events) if e.kind == "step"]
+    i_snap = [i for i, e in enumerate(m.events) if e.kind == "snapshot"]
+    i_best = [i for i, e in enumerate(m.events) if e.kind == "best"]
     res.count("loop.step", len(i_step))
     res.count("loop.snapshot", len(i_snap))
     res.count("loop.best-assign", len(i_best))
@@ -99,7 +96,7 @@ def run(prog: Program, res: Result) -> None:
                             f"`{norm(st, 70)}` runs between the snapshot and the computation of the best agent"))
     # everything after the best assignment: no store to _population / _best_agent
     resolver = Resolver(prog, None)
-    after_nodes = body[i_best[0] + 1:] + opt.node.body[opt.node.body.index(loop) + 1:]
+    after_nodes = body[i_best[0] + 1:] + list(m.post)
     roots = set()
     for st in after_nodes:
         for n in ast.walk(st):
@@ -184,8 +181,7 @@ def run(prog: Program, res: Result) -> None:
     packaging.check_sign_parity(prog, res, P)
     packaging.check_packaging(prog, res, P)
     # the same ordering before the loop (initial best) - informational consistency
-    pre = [st for st in opt.node.body if _best_assign(st) is not None]
-    res.count("pre-loop.best-assign", len(pre))
+    res.count("pre-loop.best-assign", len(m.pre_best))
 
 
 def _rename_targets(t: ast.AST) -> ast.AST:
@@ -216,7 +212,7 @@ VARIANTS = [
       "            (self._best_agent, ), (self._worst_agent, ) = special_agents(self._population, n_best=1, n_worst=1, task_type=task.minmax)\n\n            # stop when", "C03.R2"),
     V("sign-restored-for-generations-only", _M,
       "            kwargs[\"best_solution\"] = refine_best_solution(best_solution, task_type)",
-      "            kwargs[\"best_solution\"] = best_solution", "C03.PKG-result"),
+      "            kwargs[\"best_solution\"] = best_solution", "C03.SGN-restore"),
     V("error-check-resorts-population", _A,
       "        avg_fit = average_fitness(self._population)\n",
       "        avg_fit = average_fitness(self._population)\n        self._population = self._population[1:] + self._population[:1]\n        self._best_agent = self._population[0]\n", "C03.R1"),
